@@ -71,6 +71,7 @@ def rw(name, **kw):
 ENGINE = r'''
 static inline uint64_t ENG_NEXT(S_* S) { uint64_t v = __CPROVER_uninterpreted_mt(S->sSeed_eng, S->eng_pos); S->eng_pos++; return v; }
 static inline void ENG_SEED(S_* S, uint32_t s) { S->sSeed_eng = s; S->eng_pos = 0; }
+static inline void ENG_DISCARD(S_* S, uint64_t n) { S->eng_pos += n; }
 static inline void YIELD(S_* S) { S->yields++; }
 /* a % b as an uninterpreted function with its defining bound (64-bit division circuits compared twice do not finish on any back end) */
 uint64_t __CPROVER_uninterpreted_umod(uint64_t a, uint64_t b);
@@ -133,7 +134,10 @@ void h_count(void) { S_* s; GetRandCount(s); VF_CANARY("end"); }
     # ForwardToRandCount: restore lemma, unbounded n
     c = C['ForwardToRandCount']
     c = re.sub(r'GetRandNumber\(\s*1\s*\)', 'GetRandNumberS(S, 1)', c)
-    c = attach_loop_contracts('ForwardToRandCount', c, ['__CPROVER_assigns(i, S->eng_pos, S->sRandCount)\n__CPROVER_loop_invariant(i <= random_count && SINV(S) && S->eng_pos == g_pos0 + i)'])
+    # std::mt19937_64::discard(n) advances the engine by n draws (and nothing else)
+    c = re.sub(r'\beng\.discard\(\s*([^;]+?)\s*\)\s*;', r'ENG_DISCARD(S, \1);', c)
+    if re.search(r'\b(for|while)\b', c):
+        c = attach_loop_contracts('ForwardToRandCount', c, ['__CPROVER_assigns(i, S->eng_pos, S->sRandCount)\n__CPROVER_loop_invariant(i <= random_count && SINV(S) && S->eng_pos == g_pos0 + i)'])
     src = state + '''#define SINV(S) %s
 uint64_t g_pos0;
 uint64_t GetRandNumberS(S_* S, uint64_t max) __CPROVER_requires(SINV(S) && max != 0) __CPROVER_assigns(S->eng_pos, S->sRandCount) __CPROVER_ensures(SINV(S) && S->eng_pos == OLD(S->eng_pos) + 1);
@@ -145,8 +149,9 @@ __CPROVER_ensures(SINV(S) && S->eng_pos == random_count && S->sRandCount == rand
 {%s}
 void harness(void) { S_* s; g_pos0 = 0; ForwardToRandCount(s, nondet_ulong()); VF_CANARY("end"); }
 ''' % (INVS, c)
-    out.append(Job('fault/ForwardToRandCount', props, src, 'harness', enforce='ForwardToRandCount', replace=['GetRandNumberS'], loop_contracts=True, funcs=[B['ForwardToRandCount']],
-                   expect=[r'postcondition', r'invariant after step|loop_invariant_step'], meta={'fn': 'ForwardToRandCount'}))
+    has_loop = bool(re.search(r'\b(for|while)\b', c))
+    out.append(Job('fault/ForwardToRandCount', props, src, 'harness', enforce='ForwardToRandCount', replace=['GetRandNumberS'], loop_contracts=has_loop, funcs=[B['ForwardToRandCount']],
+                   expect=[r'postcondition'] + ([r'invariant after step|loop_invariant_step'] if has_loop else []), meta={'fn': 'ForwardToRandCount'}))
     # Injector state accessors: SetState(GetState()) restores the injector part of S
     src = state + '''uint32_t GetState(S_* S) __CPROVER_requires(__CPROVER_is_fresh(S, sizeof(*S))) __CPROVER_assigns() __CPROVER_ensures(RET == S->_count)
 { S_* self = S; %s }
